@@ -9,6 +9,7 @@ import (
 	"encoding/hex"
 	"fmt"
 	"reflect"
+	"runtime/debug"
 	"sort"
 	"time"
 
@@ -138,6 +139,9 @@ func regSelfTest() {
 				time.Sleep(time.Hour)
 			}
 		case "die":
+			// a small stack limit: the overflow must come within milliseconds also on a busy machine (with the
+			// default 1 GB limit the probe needed seconds under load and was taken for a hang)
+			debug.SetMaxStack(8 << 20)
 			rec(0)
 		case "error":
 			return fmt.Errorf("self-test error")
